@@ -745,12 +745,15 @@ func (o *Oracles) onRequest(m *Msg, target *Instance) {
 				progress := target.R.AppliedIndex() + target.R.LastIndex()*1000003
 				if rr.sig == sig && rr.last == progress {
 					rr.n++
-					if (o.Quiet && rr.n > 3) || rr.n > 60 {
+					if o.Quiet {
+						rr.qn++ // only repeats made after the faults stopped count towards the short bound
+					}
+					if rr.qn > 3 || rr.n > 60 {
 						o.w.violate("C12", "R3", "C12/R3/reinstall-loop", "%s -> %s: InstallSnapshot(%s) delivered %d times in a row after faults stopped without the follower's last/applied index changing (follower last index %d, applied %d; disk: %s)",
 							m.From, m.To, sig, rr.n+1, target.R.LastIndex(), target.R.AppliedIndex(), target.disk.LogString())
 					}
 				} else {
-					rr.sig, rr.n, rr.last = sig, 0, progress
+					rr.sig, rr.n, rr.qn, rr.last = sig, 0, 0, progress
 				}
 			}
 		}
@@ -816,6 +819,7 @@ func (o *Oracles) onResponseDelivered(m *Msg) {
 type repeatRec struct {
 	sig  string
 	n    int
+	qn   int // repeats counted during the quiet phase
 	last uint64
 }
 
